@@ -197,11 +197,11 @@ func hJoin(labels []string) string {
 }
 
 // hGenRegName: [label "."]* last-label ["."], the last label arbitrary, a reserved TLD or a reserved second-level name.
-// wide > 0 widens the character classes of the symbolic bytes (thorough tier).
+// Symbolic bytes: labels a-z (wide > 0: a-z 0-9 -), last label a-z A-Z.
 func hGenRegName() hHost {
 	labelClass, tldClass := hLower, hLetters
 	if vParam("wide", 0) > 0 {
-		labelClass, tldClass = hAlnumLower, hAlnumBoth
+		labelClass = hAlnumLower
 	}
 	var labels []string
 	plain := true
